@@ -43,7 +43,7 @@ META = {
 }
 CASES_INPROC = {'quick': 480, 'thorough': 40000}
 CASES_CHILD = {'quick': 32, 'thorough': 1600}
-SECONDS = {'quick': 50, 'thorough': 480}
+SECONDS = {'quick': 300, 'thorough': 480}
 HASHSEEDS = ['0', '1', '2', '3', 'random']
 
 
